@@ -24,7 +24,7 @@ class Obj(object):
 
 def caller_scope():
     from pony import orm
-    g = {n: Obj(n) for n in G.NAMES + ['g', 'h', 'm', 'n', 'x', 'y', 'w', 'f']}
+    g = {n: Obj(n) for n in G.NAMES + ['g', 'h', 'm', 'n', 'x', 'y', 'w', 'f', 'S', 'T', 's', 't', 'r']}
     g.update({'count': orm.count, 'random': orm.core.random, 'getattr': getattr, 'raw_sql': orm.raw_sql, 'date': datetime.date, 'Decimal': decimal.Decimal})
     return g
 
@@ -43,7 +43,12 @@ def model_children(node):
     if T is ast.BoolOp: return list(node.values)
     if T is ast.BinOp: return [node.left, node.right]
     if T is ast.UnaryOp: return [node.operand]
-    if T in (ast.Tuple, ast.List): return list(node.elts)
+    if T in (ast.Tuple, ast.List, ast.Set): return list(node.elts)
+    if T is ast.Dict: return list(node.keys) + list(node.values)
+    if T is ast.GeneratorExp:
+        out = []
+        for g in node.generators: out += [g.iter] + list(g.ifs)
+        return out + [node.elt]
     return []
 
 
@@ -110,6 +115,7 @@ class ExtGen(G.Gen):
     def atom(self, infield=False):
         r = self.rng
         if r.random() < 0.22: return ('Name', r.choice(QUERY_VARS), [])
+        if r.random() < 0.10: return ('Name', r.choice(['s', 't', 'r']), [])        # bound inside a subquery, free (caller scope) outside
         return G.Gen.atom(self, infield)
 
     def expr(self, depth, infield=False):
@@ -134,8 +140,27 @@ class ExtGen(G.Gen):
         return ('Call', None, [('Name', name, [])] + args)
 
 
+def _subquery(self, depth):
+    r = self.rng
+    clauses, kids = [], []
+    for i in range(r.choice([1, 1, 2])):
+        names = [['s'], ['t'], ['s', 't']][r.choice([0, 1, 2])] if i == 0 else [['t'], ['r']][r.choice([0, 1])]
+        nifs = r.choice([0, 1, 1, 2])
+        clauses.append((names, nifs))
+        kids.append(('Name', r.choice(['S', 'T']), []) if r.random() < 0.7 else self.expr(depth - 1))
+        kids += [self.expr(depth - 1) for _ in range(nifs)]
+    return ('Gen', clauses, kids + [self.expr(depth - 1)])
+ExtGen.subquery = _subquery
+
+
 def _expr(self, depth, infield=False):
     r = self.rng
+    if depth > 0 and not infield and r.random() < 0.07: return self.subquery(depth)
+    if depth > 0 and not infield and r.random() < 0.05:
+        n = r.choice([0, 1, 2])
+        return ('Dict', None, [self.expr(depth - 1) for _ in range(2 * n)])
+    if depth > 0 and not infield and r.random() < 0.04:
+        return ('Set', None, [self.expr(depth - 1) for _ in range(r.choice([1, 2, 3]))])
     if depth > 0 and r.random() < 0.10: return self.special_call(depth, infield)
     if depth > 0 and r.random() < 0.08: return ('Attribute', r.choice(['x', 'y']), [('Name', r.choice(QUERY_VARS), [])])
     return G.Gen.expr(self, depth, infield)
